@@ -24,6 +24,9 @@ pub struct Ctx<'h> {
     pub decisions: Vec<u8>,
     pub last_dir: Option<EntityDirectAny>,
     pub dirs: Vec<EntityDirectAny>,
+    /// set by the statement that FOLLOWS the query macro in the same function: a query that ends
+    /// (Break included) must give control back to its caller, not leave the enclosing function
+    pub after: bool,
 }
 
 pub fn fmt_any(e: EntityAny) -> String {
@@ -128,16 +131,20 @@ macro_rules! defq {
             use super::*;
             pub fn iter(w: &mut Wa, $ctx: &mut Ctx) {
                 ecs_iter!(w, |$($params)*| { $ctx.begin(); $body; $ctx.step() });
+                $ctx.after = true;
             }
             pub fn iterb(w: &Wa, $ctx: &mut Ctx) {
                 ecs_iter_borrow!(w, |$($params)*| { $ctx.begin(); $body; $ctx.step() });
+                $ctx.after = true;
             }
             pub fn iterd(w: &mut Wa, $ctx: &mut Ctx) {
                 ecs_iter_destroy!(w, |$($params)*| { $ctx.begin(); $body; $ctx.step4() });
+                $ctx.after = true;
             }
             /// ecs_iter_destroy! with a closure whose return type is plain `EcsStep`
             pub fn iterds(w: &mut Wa, $ctx: &mut Ctx) {
                 ecs_iter_destroy!(w, |$($params)*| { $ctx.begin(); $body; $ctx.step() });
+                $ctx.after = true;
             }
             pub fn find_any(w: &mut Wa, k: EntityAny, $ctx: &mut Ctx) -> Option<()> {
                 ecs_find!(w, k, |$($params)*| { $ctx.begin(); $body; $ctx.unit() })
